@@ -23,7 +23,7 @@ PROPS = {
     },
 }
 
-_PARSE_NOTE = "assumed: vstd specs (Vec, Seq, Option, IteratorSpec prophecy model); dependency stubs DecodedChar/Span/Meta/SmallVec/SmallString/NumberBuf::new_unchecked (contracts read off their sources; DecodedChar and Span discharged by Kani); Object::new/push (contract proved in unit object); char::to_digit / char::from_u32 (std contracts, discharged by Kani) / char ordering; Option::transpose; derived Default of CodeMap; usize is 64-bit; total input byte length fits usize. R12: in parse_str / parse_str_with / parse_utf8 / parse_utf8_with / parse_infallible / parse_infallible_with / parse_infallible_utf8 / parse_utf8_infallible_with the adapter expressions `content.chars().map(Ok)`, `chars.map(|c| c.map(DecodedChar::from_utf8))`, `chars.map(Ok)` and `chars.map(DecodedChar::from_utf8)` (closures / function items over iterators, outside Verus) are replaced by assumed stubs that yield the same characters with their UTF-8 lengths; with that, these eight entry points are proved to be `doc` on the text's characters. NOT proved: termination of the main loop of Value::parse_in (vstd's iterator measure is unconstrained after end of input; bounded stand-in), parse_slice* (UTF-8 validation + chain; bounded stand-in compares every entry point with parse_str_with under every option record). `impl FromStr for Value` is verified as an inherent method (R10)."
+_PARSE_NOTE = "assumed: vstd specs (Vec, Seq, Option, IteratorSpec prophecy model); dependency stubs DecodedChar/Span/Meta/SmallVec/SmallString/NumberBuf::new_unchecked (contracts read off their sources; DecodedChar and Span discharged by Kani); Object::new/push (contract proved in unit object); char::to_digit / char::from_u32 (std contracts, discharged by Kani) / char ordering; Option::transpose; derived Default of CodeMap; usize is 64-bit; total input byte length fits usize. R12: in parse_str / parse_str_with / parse_utf8 / parse_utf8_with / parse_infallible / parse_infallible_with / parse_infallible_utf8 / parse_utf8_infallible_with the adapter expressions `content.chars().map(Ok)`, `chars.map(|c| c.map(DecodedChar::from_utf8))`, `chars.map(Ok)` and `chars.map(DecodedChar::from_utf8)` (closures / function items over iterators, outside Verus) are replaced by assumed stubs that yield the same characters with their UTF-8 lengths; with that, these eight entry points are proved to be `doc` on the text's characters. NOT proved: termination of the main loop of Value::parse_in (vstd's iterator measure is unconstrained after end of input; bounded stand-in), parse_slice / parse_slice_with are proved to be `doc` on slice_items(bytes) = the characters of the well-formed prefix, then one stream error if the bytes are ill-formed, with stream errors mapped to InvalidUtf8 at the same offset (Error::io_into_utf8, proved): ASSUMED there are std's contracts for core::str::from_utf8 / Utf8Error::valid_up_to (valid_len, utf8_decode uninterpreted; `the well-formed prefix is well-formed`), and two modelled expressions (R12): `valid.chars().map(Ok).chain(ill_formed)` and `io::Error::from(io::ErrorKind::InvalidData)`; `&content[..n]`, `.unwrap()` and `.map_err(Error::io_into_utf8)` are verified as written. `impl FromStr for Value` is verified as an inherent method (R10)."
 _DOC = " End to end: Value::parse_in is proved (explicit-stack machine vs the recursive-descent specification `doc` = RFC 8259 `ws value ws`, by the inductive lemmas lemma_run_array / lemma_run_object) to return exactly the denoted value, fragment index and code map, or the specified error, for every input stream and option record; Value::parse / parse_with / parse_str / parse_str_with / parse_utf8 / parse_utf8_with are proved to be `doc` on the whole input from byte 0 with an empty code map."
 for _pid, _title, _text in [
     ("C01", "Strict acceptance", "Unbounded proof that every lexical/structural fragment parser accepts exactly the RFC 8259 production it implements (literals, number automaton, string grammar, begin/end/separator fragments), for every input stream and every option record." + _DOC),
@@ -106,18 +106,18 @@ PROPS["C10"] = {"units": ["object"], "kani": [], "replay": ["bounded"], "title":
 _V = "contract-based deductive verification (Verus) of functions extracted mechanically from /repo on every run"
 _B = "; bounded stand-in (replay crate vs an independent reference, labelled bounded) for "
 for _pid, _t in {
-    "C01": _V + ": every parser function against RFC 8259 specification functions, Value::parse_in == doc, ten of the twelve entry points and FromStr == doc on the whole input" + _B + "the byte-slice entry points (parse_slice*) and termination of the main loop",
-    "C02": _V + ": value clauses of the parser contracts, Indexes and Object queries == linear scan" + _B + "the byte-slice entry point",
+    "C01": _V + ": every parser function against RFC 8259 specification functions, Value::parse_in == doc, all twelve entry points and FromStr == doc on the whole input (parse_slice*: on the characters of the well-formed prefix, by std's from_utf8 contract)" + _B + "termination of the main loop; UTF-8 validation itself (std) is exercised on ill-formed byte strings",
+    "C02": _V + ": value clauses of the parser contracts through every entry point, Indexes and Object queries == linear scan" + _B + "the assumed layers (IndexMap, std UTF-8 decoding of byte slices)",
     "C03": _V + ": no panic / overflow / bounds / termination side obligations of every parser function" + _B + "termination of the main loop and stack use (deep documents in child processes with a 256 KiB stack)",
     "C04": _V + " and pure lemmas: printer under any option record == text of the padded value (whitespace only where RFC 8259 allows it); doc(any such text) == the value; parse_str == doc" + _B + "to_string end to end (std blanket impl) over the option records of the quantifier",
-    "C05": _V + ": code-map clauses (cm_begin / cm_end) of every fragment parser, final code map of Value::parse_in == doc's" + _B + "the byte-slice entry point",
+    "C05": _V + ": code-map clauses (cm_begin / cm_end) of every fragment parser, final code map of Value::parse_in and of every entry point == doc's" + _B + "byte offsets after multi-byte and ill-formed UTF-8 (std decoding assumed)",
     "C06": _V + ": list-model contracts on Indexes and every Object operation incl. the removal iterators" + _B + "the assumed IndexMap layer (operation histories vs the list model)",
-    "C07": _V + ": Err branches of the parser contracts, error of Value::parse_in == doc's" + _B + "the byte-slice entry point",
+    "C07": _V + ": Err branches of the parser contracts, error of Value::parse_in and of every entry point == doc's, ill-formed UTF-8 == InvalidUtf8 at the offset of the well-formed prefix's end (io_into_utf8)" + _B + "the offset arithmetic of std's UTF-8 decoding (assumed)",
     "C08": _V + ": string_literal == RFC 8785 escaping, Value-level printer == ctext under the compact record, Display for Value" + _B + "to_string / String::from and every Unicode scalar",
     "C09": _V + " for Object::sort and string escaping" + _B + "the UTF-16 member order, the RFC 8785 number table and Value/Object::canonicalize_with (not under contract)",
     "C10": _V + " for the index rebuild (queryable afterwards)" + _B + "idempotence and blindness to order / spelling / spacing (canonicalize_with is not under contract)",
     "C11": _V + ": get_fragment family, array/object IterMapped::next, the four macro-generated keyed iterators (from the macro-expanded crate), their constructors and the unique lookups" + _B + "Traverse / count / volume, TryFromJson",
-    "C12": _V + ": SmallString::parse_in == option-parametric str_run, options frame, through doc(.., options)" + _B + "the byte-slice entry point under lenient options",
+    "C12": _V + ": SmallString::parse_in == option-parametric str_run, options frame, through doc(.., options), the option record reaching the parser unchanged through every *_with entry point" + _B + "lenient decoding over byte slices (std decoding assumed)",
     "C13": _V + ": generic container printers == documented layout, Value-level printer, width == printed length, no line break without limits" + _B + "to_string end to end",
     "C14": _V + ": frame contracts (Object's Eq/Ord/Hash read the entry list only)" + _B + "lawfulness of the derived order / equality / hash of values (compiler-generated) and history independence",
 }.items():
